@@ -16,6 +16,7 @@ struct Conf {
   bool forces;   // reads total forces: alphabet is region x force
   bool two_d;    // uses second variable d2
   double temperature;
+  bool centres_only = false;  // values at bin centres inside the grid only (binned == analytic evaluation)
 };
 
 static const char *CV_D =
@@ -45,6 +46,8 @@ static std::vector<Conf> menu()
   m.push_back({"metadynamics-grids", d + "metadynamics {\n colvars d\n hillWeight 0.5\n hillWidth 1.0\n newHillFrequency 2\n}\n", false, false, 0});
   m.push_back({"metadynamics-nogrids", d + "metadynamics {\n colvars d\n hillWeight 0.5\n hillWidth 1.0\n newHillFrequency 2\n useGrids off\n}\n", false, false, 0});
   m.push_back({"metadynamics-keepHills", d + "metadynamics {\n colvars d\n hillWeight 0.5\n hillWidth 1.0\n newHillFrequency 2\n keepHills on\n}\n", false, false, 0});
+  m.push_back({"metadynamics-keepHills-gridfreq3", d + "metadynamics {\n colvars d\n hillWeight 0.5\n hillWidth 1.0\n newHillFrequency 1\n gridsUpdateFrequency 3\n keepHills on\n}\n", false, false, 0, true});
+  m.push_back({"metadynamics-gridfreq3", d + "metadynamics {\n colvars d\n hillWeight 0.5\n hillWidth 1.0\n newHillFrequency 1\n gridsUpdateFrequency 3\n}\n", false, false, 0, true});
   m.push_back({"metadynamics-wellTempered", d + "metadynamics {\n colvars d\n hillWeight 0.5\n hillWidth 1.0\n newHillFrequency 1\n wellTempered on\n biasTemperature 1500.0\n}\n", false, false, 300});
   m.push_back({"metadynamics-expandBoundaries", std::string(CV_D_EXP) + "metadynamics {\n colvars d\n hillWeight 0.5\n hillWidth 1.0\n newHillFrequency 2\n}\n", false, false, 0});
   m.push_back({"opes", d + "opes_metad {\n colvars d\n newHillFrequency 2\n barrier 5.0\n gaussianSigma 0.3\n}\n", false, false, 300});
@@ -70,7 +73,8 @@ struct Driver {
     int reg = c.forces ? letter / 2 : letter;
     double f = c.forces ? FRC[letter % 2] : 0.0;
     px->x[0] = cvm::rvector(0, 0, 0);
-    px->x[1] = cvm::rvector(REG[reg], 0, 0);
+    static const double CEN[5] = {1.25, 1.75, 2.25, 2.75, 1.25};
+    px->x[1] = cvm::rvector(c.centres_only ? CEN[reg] : REG[reg], 0, 0);
     px->x[2] = cvm::rvector(0, 3, 0);
     px->x[3] = cvm::rvector((s % 2) ? 1.2 : 1.7, 3, 0);
     px->fsys[0] = cvm::rvector(-f, 0, 0);
@@ -155,7 +159,7 @@ int main(int argc, char **argv)
       wj += "]";
       for (int ss = 0; ss <= (c.forces ? 1 : 0); ss++) {
         std::string err;
-        // ---- R0: uninterrupted; state saved after every step (saving must not perturb the run) ----
+        // ---- R0: uninterrupted, nothing saved before the end ----
         Driver d0(c, ss != 0);
         if (!d0.fresh(word[0], 0, err)) { fprintf(stderr, "HARNESS-ERROR: %s rejected: %s\n", c.name, err.c_str()); exit(2); }
         std::vector<Obs> o0(L);
@@ -165,8 +169,32 @@ int main(int argc, char **argv)
         for (int s = 0; s < L; s++) {
           if (!d0.step(word[s], s, o0[s], err)) { fprintf(stderr, "HARNESS-ERROR: %s step error: %s\n", c.name, err.c_str()); exit(2); }
           r.count("transitions");
-          st_text[s] = d0.px->state_text();
-          st_bin[s] = d0.px->state_binary();
+        }
+        d0.px->end_run();
+        st_text[L - 1] = d0.px->state_text();
+        // ---- the first part of each interrupted run: steps 0..K, end of run, state saved (the way a real stop happens) ----
+        for (int K = 0; K < L - 1; K++) {
+          Driver dk(c, ss != 0);
+          delete d0.px; d0.px = NULL;
+          if (!dk.fresh(word[0], 0, err)) { fprintf(stderr, "HARNESS-ERROR: %s rejected\n", c.name); exit(2); }
+          Obs ok;
+          for (int s = 0; s <= K; s++) {
+            if (!dk.step(word[s], s, ok, err)) { fprintf(stderr, "HARNESS-ERROR: %s step error: %s\n", c.name, err.c_str()); exit(2); }
+            r.count("transitions");
+          }
+          dk.px->end_run();
+          st_text[K] = dk.px->state_text();
+          st_bin[K] = dk.px->state_binary();
+        }
+        {
+          // K = L-1: state of the complete run in binary form
+          Driver dk(c, ss != 0);
+          delete d0.px; d0.px = NULL;
+          dk.fresh(word[0], 0, err);
+          Obs ok;
+          for (int s = 0; s < L; s++) dk.step(word[s], s, ok, err);
+          dk.px->end_run();
+          st_bin[L - 1] = dk.px->state_binary();
         }
         std::string final0 = st_text[L - 1];
         delete d0.px;  // one module per process at a time
